@@ -4,10 +4,44 @@ import json, os, subprocess
 ROOT = os.path.dirname(os.path.dirname(os.path.abspath(__file__)))
 
 # id -> (built, category, technique, level text, level note, design ref)
+MODEL = "Trusts my ISO 18004 reference model (harness/oracle, no code or table shared with fast_qr), validated at the start of every run against the Annex I example and >=1920 whole symbols of the independent qrcode crate; payload contents are sampled."
 P = {
- "C01": (True, "exploration", "runtime monitoring: reference-decoder oracle over recorded builds (boundary-directed workload)",
-         "Held on every execution observed: each build result is decoded from its module values by an independent ISO 18004 reference decoder and compared with the input; every (version, level), (version, mask) and (count-width class, mode) cell is reached in the quick run. Payload contents are sampled, so this is exploration, not proof.",
-         "Trusts my ISO reference model (validated every run against >=1920 symbols of the independent qrcode crate and the Annex I example).", "5/C01"),
+ "C01": (True, "exploration", "runtime monitoring: independent reference decoder run over recorded builds (boundary-directed workload)",
+         "Held on every execution observed: each build result is decoded from its module values only by an independent ISO 18004 reference decoder and compared with the input; every (version, level), (version, mask) and (count-width class, mode) cell is reached in the quick run, thorough adds every length for v<=6 and random lengths elsewhere. Exploration, not proof: payload contents are sampled.",
+         MODEL, "5/C01"),
+ "C02": (True, "exploration", "runtime monitoring: syndrome oracle over read-out blocks + injected codeword corruption",
+         "Every build in all 160 (version, level) cells is read out (unmask, zig-zag, de-interleave by the oracle's own Table 9) and every block must have zero syndromes S_0..S_{ec-1} over table-free GF(256), zero remainder bits and the ISO codeword count; floor(ec/2) random/burst errors per block are injected and must be corrected by a standard BM/Chien/Forney decoder (thorough also damages the module matrix itself).",
+         MODEL + " Table 9 is transcribed as two 4x40 tables and cross-checked against qrcode every run.", "5/C02"),
+ "C03": (True, "exploration", "runtime monitoring: function-pattern map oracle over the complete (version, level, mask) space",
+         "All 1280 (version, level, forced mask) cells are built (configuration space enumerated completely, payloads sampled) and every finder/separator/timing/alignment/dark-module coordinate plus the array tail beyond size^2 is compared with an oracle map built from ISO 6.3 and Annex E.",
+         MODEL, "5/C03"),
+ "C04": (True, "exploration", "runtime monitoring: BCH(15,5)/BCH(18,6) oracle on both copies + reported-field cross-check, complete (version, level, mask) space",
+         "All 1280 cells: both format copies and both version blocks are read at the ISO coordinates and compared with words computed by polynomial division; reported version/level/mask/mode/size must equal what the symbol physically encodes, what was forced, and level Q by default, over all 16 forced/automatic option combinations.",
+         MODEL, "5/C04"),
+ "C05": (True, "exploration", "runtime monitoring: capacity-arithmetic oracle over EVERY length 0..7200 x mode x level (x every forced version in thorough)",
+         "The property's own quantifier is enumerated: every length 0..=7200 in 3 modes x 4 levels with automatic version (quick) and additionally every forced version 1..40 for every length up to capacity+2 (thorough); observed outcome (version chosen / SpecifiedVersion / EncodedData / panic) must equal the outcome derived from 4+count+payload bits <= 8 x data codewords; threshold and capacity-filling symbols are fully reference-decoded. Only payload content is sampled.",
+         MODEL + " fast_qr is built with overflow-checks and debug-assertions on, so a wrapped subtraction is observed as a panic.", "5/C05"),
+ "C06": (True, "exploration", "runtime monitoring: strict ISO 7.4 bit-stream encoder as oracle over read-out data codewords",
+         "Data codewords recovered from module values are compared bit for bit with a strict spec encoder (count widths per version class, group packing, terminator min(4,rest), bit padding, EC/11 pads to capacity) at all lengths leaving 0..12 spare bits, all residues, all 160 cells x 3 modes; thorough runs every length for 17 versions.",
+         MODEL, "5/C06"),
+ "C07": (True, "exploration", "runtime monitoring via guarded hook: polynomials::structure driven directly, exhaustive single-non-zero-byte basis against table-free GF(256) division",
+         "The real division/interleave call site is driven with every position x all 255 values for every (block length, generator degree) pair in use (1.3M calls, basis exhausted in both tiers), all 160 generator selections are compared with prod(x-alpha^i), plus dense/zero-run arrays and observed linearity. Exhaustive on the basis; general contents follow by linearity that is observed on samples rather than proven.",
+         "Hook re-exports internal functions unchanged. Oracle arithmetic is shift-and-xor modulo 0x11D, no tables.", "5/C07"),
+ "C08": (True, "exploration", "runtime monitoring: pairwise differential of the eight forced-mask builds against ISO Table 10 at every coordinate",
+         "For every version (all coordinates up to 177x177) the same payload is built with all eight forced masks and automatically; all 28 pairs must differ exactly where the ISO conditions disagree inside the oracle's data region and nowhere in non-format function modules; un-masking by the pattern named in each symbol's own format information must give one matrix; automatic == forced build of the reported mask.",
+         MODEL, "5/C08"),
+ "C09": (True, "exploration", "runtime monitoring: classifier oracle over exhaustive short strings + planted-byte long strings",
+         "All 256 byte values at every position of strings up to length 8 over three backgrounds, all 3^L class patterns up to L=8, all 65,536 two-byte strings and random long strings with a planted foreign byte are built in automatic mode; mode field, decoded mode indicator and decoded bytes must match an independently spelled 45-character set.",
+         MODEL, "5/C09"),
+ "C10": (True, "exploration", "runtime monitoring: catch_unwind + overflow/debug assertions + watchdog over hostile inputs; Miri interpreter stage (thorough)",
+         "Arbitrary byte strings (0..8000, all-zero, all-FF, pad and mode-indicator look-alikes, all 480 thresholds +-2, every cell at capacity) under all option shapes must return Ok or one of the two documented errors; panics, index errors and integer overflow are observed through catch_unwind in a profile with overflow-checks and debug-assertions; a bounded watchdog decides non-termination; thorough adds ~240 builds+renders under Miri whose outputs must equal the native digests.",
+         "Stack exhaustion on tiny stacks and allocator failure are not explored; Miri covers versions 1-4 only (cost).", "5/C10"),
+ "C11": (True, "exploration", "runtime monitoring via guarded hook: recorded mask candidates re-scored by an independent penalty model; known finding KF-C11-1 matched by event predicate",
+         "Each automatic build's eight recorded candidates must be eight distinct masks over identical placed codewords (and equal the forced-mask builds seen through the API); an independent scan of the documented penalty decides whether the emitted mask is in the argmin (ties and order-equivalent scores accepted). The pinned tree violates this (column terms frozen at the un-masked placement): recorded as KNOWN FINDING KF-C11-1, matched by a predicate over the recorded events; any other way of missing the minimum is a VIOLATION.",
+         "Penalty model = the crate's doc comment / the property statement; encoding region = oracle data region.", "5/C11, 6"),
+ "C15": (True, "exploration", "runtime monitoring: region-map oracle over labels of every coordinate, complete (version, level, mask) space + callback spy",
+         "All 1280 cells: the public type label of every coordinate is compared with the ISO region (either label accepted where alignment patterns sit on the timing line), Data-label count with 8*codewords+remainder, one label map per version across payloads/levels/masks, and the module handed to a Shape::Command callback with QRCode.data.",
+         MODEL, "5/C15"),
 }
 ALL = ["C%02d" % i for i in range(1, 20)]
 
